@@ -88,6 +88,14 @@ Proof.
     specialize (H2 Hne). lia.
 Qed.
 
+Lemma frame_not_nil k m : frame k m <> [].
+Proof.
+  intros HC. unfold frame in HC. apply app_eq_nil in HC. destruct HC as [HC _].
+  apply (f_equal (@length _)) in HC.
+  pose proof (tx_head_length k (N.of_nat (length (sp_hdr m)) + N.of_nat (length (sp_body m)))) as L.
+  rewrite HC in L. cbn in L. destruct k; cbn in L; lia.
+Qed.
+
 (* ------------------------------------------------- staged decoder: basics *)
 Section Sp.
   Variable cfg : rx_cfg.
@@ -228,7 +236,7 @@ Section Sp.
         * lia.
         * rewrite HL1, HLv, drop_single by lia.
           assert (X: (n <? hl - g) = true) by (apply N.ltb_lt; lia). rewrite X.
-          rewrite Lax. do 2 f_equal; lia.
+          rewrite Lax. f_equal. f_equal; [f_equal; lia|lia].
       + (* the header is complete *)
         apply N.ltb_ge in E2. assert (En: n = hl - g) by lia.
         cbn [total]. cbn [N.ltb N.compare].
@@ -278,7 +286,7 @@ Section Sp.
         * lia.
         * rewrite HL1, HLv, drop_single by lia.
           assert (X: (n <? len - g) = true) by (apply N.ltb_lt; lia). rewrite X.
-          rewrite Lax. do 2 f_equal; lia.
+          rewrite Lax. f_equal. f_equal; [f_equal; lia|lia].
       + apply N.ltb_ge in E2. assert (En: n = len - g) by lia.
         cbn [total]. cbn [N.ltb N.compare].
         rewrite feed_exact by (unfold want; cbn [sp_want]; lia).
@@ -342,7 +350,7 @@ Section Sp.
     destruct (IH (skipn kk xs) c1 _ HR1) as (c2 & e2 & HS2 & HR2 & HE2).
     { rewrite skipn_length. unfold xs in *. cbn [length] in *. lia. }
     rewrite HS2. exists c2, (e1 ++ e2). split; [reflexivity|].
-    rewrite <- (firstn_skipn kk xs) at 1 3.
+    replace (sp_feed cfg d xs) with (sp_feed cfg d (firstn kk xs ++ skipn kk xs)) by (now rewrite firstn_skipn).
     unfold sp_feed in *. rewrite feed_app.
     destruct (feed sp_phase rx_event (sp_want (r_kind cfg)) (sp_cb cfg) d (firstn kk xs)) as [d1 ev1].
     cbn [fst snd] in *.
@@ -393,15 +401,6 @@ Section Sp.
       subst. auto.
   Qed.
 
-  (* every cutting of a stream into pieces = the uncut stream *)
-  Lemma sp_feed_all_concat : forall ps d, (exists c, R c d) ->
-    sp_feed_all cfg d ps = (let '(d', e) := sp_feed cfg d (concat ps) in (d', e)) \/ ps = [].
-  Proof.
-    intros ps d _. destruct ps as [|p r]; [right; reflexivity|left].
-    unfold sp_feed_all, sp_feed. rewrite feed_all_concat.
-    destruct (feed sp_phase rx_event (sp_want (r_kind cfg)) (sp_cb cfg) d (concat (p :: r))). reflexivity.
-  Qed.
-
   (* ------------------------------------------- frames through the decoder *)
   Definition admitted (len : N) : Prop :=
     msg_size_valid len = true /\ (r_rcvmax cfg = 0 \/ len <= r_rcvmax cfg) /\ len <= r_allocmax cfg.
@@ -448,10 +447,10 @@ Section Sp.
     destruct (len =? 0) eqn:E0.
     - apply N.eqb_eq in E0.
       assert (W: sp_hdr m ++ sp_body m = []) by (destruct (sp_hdr m ++ sp_body m); [reflexivity|cbn in LW; lia]).
-      rewrite <- app_assoc, W. cbn [app]. fold sp_dinit.
+      rewrite W. cbn [app length N.of_nat]. fold sp_dinit.
       destruct (sp_feed cfg sp_dinit rest) as [d2 e2]. cbn [fst snd]. rewrite E0. reflexivity.
     - apply N.eqb_neq in E0.
-      unfold sp_feed at 1. rewrite app_assoc, feed_app. fold (sp_feed cfg).
+      unfold sp_feed at 1. rewrite feed_app. fold (sp_feed cfg).
       rewrite (feed_exact (PBody len) [] (sp_hdr m ++ sp_body m)); cbn [app]; unfold want; cbn [sp_want];
         [|lia|exact LW].
       unfold cb. cbn [sp_cb fst snd]. fold sp_dinit.
@@ -502,15 +501,13 @@ Section Sp.
     exists st', rx_feed_all cfg st0 ps = Some (st', frame_events ms) /\ R st' sp_dinit.
   Proof.
     intros HI HA HC.
-    destruct rx_init_R as (st & HI' & HR0). rewrite HI in HI'. inversion HI'; subst st.
+    destruct rx_init_R as (st & HI' & HR0). rewrite HI in HI'. assert (Est: st0 = st) by congruence. rewrite <- Est in HR0. clear Est HI'.
     destruct (rx_feed_all_refines ps st0 sp_dinit HR0) as (c' & ev & HS & HR & HE).
     destruct ps as [|p r].
     - cbn in HC. unfold sp_feed_all in *. cbn [feed_all fst snd] in *. subst ev.
       destruct ms as [|m ms]; [exists c'; split; [exact HS|exact HR]|].
       exfalso. unfold frames in HC. cbn [map concat] in HC. symmetry in HC. apply app_eq_nil in HC.
-      destruct HC as [HC _]. unfold frame in HC. apply app_eq_nil in HC. destruct HC as [HC _].
-      apply (f_equal (@length _)) in HC. pose proof (tx_head_length k (N.of_nat (length (sp_hdr m)) + N.of_nat (length (sp_body m)))) as L.
-      rewrite HC in L. cbn in L. destruct k; cbn in L; lia.
+      destruct HC as [HC _]. exact (frame_not_nil _ _ HC).
     - unfold sp_feed_all in *. rewrite feed_all_concat in HR, HE. fold (sp_feed cfg) in HR, HE.
       rewrite HC, (sp_feed_frames ms HA) in HR, HE. cbn [fst snd] in *. subst ev.
       exists c'. split; [exact HS|exact HR].
@@ -523,7 +520,7 @@ Section Sp.
       (exists j, deliveries ev = firstn j (map sp_wire ms)) /\ no_error ev.
   Proof.
     intros HI HA HPP HC.
-    destruct rx_init_R as (st & HI' & HR0). rewrite HI in HI'. inversion HI'; subst st.
+    destruct rx_init_R as (st & HI' & HR0). rewrite HI in HI'. assert (Est: st0 = st) by congruence. rewrite <- Est in HR0. clear Est HI'.
     destruct (rx_feed_all_refines ps st0 sp_dinit HR0) as (c' & ev & HS & HR & HE).
     exists c', ev. split; [exact HS|].
     assert (HEv: ev = snd (sp_feed cfg sp_dinit pre)).
@@ -535,9 +532,9 @@ Section Sp.
     destruct (sp_feed cfg sp_dinit pre) as [d1 e1]. cbn [snd] in HEv. subst e1.
     destruct (sp_feed cfg d1 post) as [d2 e2]. inversion HF as [[Hd He]].
     assert (Hn: ev = firstn (length ev) (ev ++ e2)) by (symmetry; apply firstn_app_exact; reflexivity).
-    split; [exists (length ev); exact Hn|]. split.
-    - destruct (deliveries_prefix ev e2) as [j Hj]. exists j. rewrite Hj.
-      rewrite <- deliveries_frame_events. reflexivity.
+    split; [exists (length ev); rewrite Hn at 1; rewrite He; reflexivity|]. split.
+    - destruct (deliveries_prefix ev e2) as [j Hj]. exists j. rewrite Hj, He.
+      rewrite deliveries_frame_events. reflexivity.
     - intros rv Hin. apply (no_error_frame_events ms rv). rewrite <- He. apply in_or_app. left. exact Hin.
   Qed.
 
@@ -547,15 +544,13 @@ Section Sp.
     exists st', rx_steps cfg st0 ps = Some (st', frame_events ms) /\ R st' sp_dinit.
   Proof.
     intros HI HA HC HF.
-    destruct rx_init_R as (st & HI' & HR0). rewrite HI in HI'. inversion HI'; subst st.
+    destruct rx_init_R as (st & HI' & HR0). rewrite HI in HI'. assert (Est: st0 = st) by congruence. rewrite <- Est in HR0. clear Est HI'.
     destruct (rx_steps_refines ps st0 sp_dinit HR0 HF) as (c' & ev & HS & HR & HE).
     destruct ps as [|p r].
     - cbn in HC. unfold sp_feed_all in *. cbn [feed_all fst snd] in *. subst ev.
       destruct ms as [|m ms]; [exists c'; split; [exact HS|exact HR]|].
       exfalso. unfold frames in HC. cbn [map concat] in HC. symmetry in HC. apply app_eq_nil in HC.
-      destruct HC as [HC _]. unfold frame in HC. apply app_eq_nil in HC. destruct HC as [HC _].
-      apply (f_equal (@length _)) in HC. pose proof (tx_head_length k (N.of_nat (length (sp_hdr m)) + N.of_nat (length (sp_body m)))) as L.
-      rewrite HC in L. cbn in L. destruct k; cbn in L; lia.
+      destruct HC as [HC _]. exact (frame_not_nil _ _ HC).
     - unfold sp_feed_all in *. rewrite feed_all_concat in HR, HE. fold (sp_feed cfg) in HR, HE.
       rewrite HC, (sp_feed_frames ms HA) in HR, HE. cbn [fst snd] in *. subst ev.
       exists c'. split; [exact HS|exact HR].
